@@ -1,5 +1,8 @@
 import Slock.Proofs.TextPanic
 import Slock.Proofs.TextChunk
+import Slock.Proofs.TextHandlers
+import Slock.Proofs.TextValue
+import Slock.Gen.TextHandlers
 /-!
 # C13 (text part) — no argument list crashes a text command converter
 
@@ -193,5 +196,120 @@ theorem parser_no_panic_on_built (args : List Bytes) (h : sizeOK args) (l : Loc)
   have := buildRun args h.1 h.2.1 h.2.2 l [] []
   simp only [List.append_nil, List.nil_append] at this
   exact ⟨⟨some 10, .entry⟩, by rw [this]; simp [runBytes]⟩
+
+/-! ## the server-side text command handlers: argument indexing -/
+
+/-- Every read `args[e]` / `args[e:]` in `TextServerProtocol.commandHandler*` and `Admin.commandHandle*` (and the local
+functions they pass `args` to) is in range for ALL argument lists: the table `Slock.Gen.textHandlerReads` is regenerated
+from /repo/server on every run (each read with the guards that dominate it in the source), `Read.check` is evaluated on
+it, and `check_sound` lifts that to every length and every loop position.
+(Before the repair `fix: SCAN answers an argument-count error when MATCH or COUNT has no value` the read `args[i+1]` in
+`commandHandlerScanCommand` carried only the loop fact `i < len(args)` and this theorem did not check.) -/
+theorem handlers_no_oob : ∀ r ∈ Slock.Gen.textHandlerReads, r.safe :=
+  Slock.TextH.all_safe _ (by decide)
+
+/-- the shape of the old SCAN loop is (correctly) rejected by the checker … -/
+example : (Slock.TextH.Read.mk "old SCAN" 0 "i+1" 1 1 [.lenGe 2, .iLtLen]).check = false := by decide
+/-- … because it is unsafe: `len = 3`, `i = 2` -/
+example : ¬ (Slock.TextH.Read.mk "old SCAN" 0 "i+1" 1 1 [.lenGe 2, .iLtLen]).safe := by
+  intro h
+  have := h 3 2 (by intro f hf; simp at hf; rcases hf with rfl | rfl <;> simp [Slock.TextH.Fact.holds])
+  simp at this
+
+/-- both registries are seen by the extractor (a renamed table would empty the list) -/
+theorem handlers_registry_seen : 40 ≤ Slock.Gen.textHandlerRegistry.length := by decide
+
+/-! ## the value readers behind GET / STRLEN / GETSET / LOCK replies / KEYS / SCAN -/
+
+open Slock.TextV in
+/-- On every value frame that passed the ingress check (`NewLockCommandDataFromOriginBytes`: at least 6 bytes, a declared
+property section fits) — whatever its inner element / property lengths say — none of the readers indexes or slices out
+of range. -/
+theorem value_readers_total (d : Slock.TextV.Bytes) (h : ingressOK d = true) :
+    (getString d).isPanic = false ∧ (getArray d).isPanic = false ∧ (getKV d).isPanic = false ∧
+    (getProps d).isPanic = false ∧ ∀ code, (getProp d code).isPanic = false := by
+  unfold ingressOK at h
+  simp only [Bool.and_eq_true, decide_eq_true_eq] at h
+  obtain ⟨h6, h2⟩ := h
+  obtain ⟨t, fl, hh⟩ := header_some d h6
+  -- the flag byte the header carries is the one the ingress check looked at
+  have h5 : ∃ b : UInt8, d[5]? = some b ∧ fl = b.toNat := by
+    unfold header at hh
+    cases h4 : d[4]? with
+    | none => simp [h4] at hh
+    | some a =>
+      cases h5 : d[5]? with
+      | none => simp [h4, h5] at hh
+      | some b =>
+        simp only [h4, h5, Option.some.injEq, Prod.mk.injEq] at hh
+        exact ⟨b, rfl, hh.2.symm⟩
+  obtain ⟨b, hb, hfb⟩ := h5
+  simp only [hb] at h2
+  -- value offset: defined, and inside the frame
+  have hoff : ∃ off, valueOffset d fl = .ok off ∧ off ≤ d.length := by
+    unfold valueOffset
+    by_cases hp : fl &&& Slock.Gen.C.LOCK_DATA_FLAG_CONTAINS_PROPERTY ≠ 0
+    · have hp' : b.toNat &&& Slock.Gen.C.LOCK_DATA_FLAG_CONTAINS_PROPERTY ≠ 0 := by rw [← hfb]; exact hp
+      rw [if_pos hp'] at h2
+      simp only [Bool.and_eq_true, decide_eq_true_eq] at h2
+      obtain ⟨h8, h3⟩ := h2
+      cases hu : u16At d 6 with
+      | none => simp [hu] at h3
+      | some pl =>
+        simp only [hu, decide_eq_true_eq] at h3
+        exact ⟨pl + 8, by simp [hp, hu], h3⟩
+    · exact ⟨6, by simp [hp], h6⟩
+  obtain ⟨off, ho, hle⟩ := hoff
+  have hprops : (getProps d).isPanic = false := by
+    unfold getProps
+    simp only [hh]
+    by_cases hp : fl &&& Slock.Gen.C.LOCK_DATA_FLAG_CONTAINS_PROPERTY = 0
+    · simp [hp, R.isPanic]
+    · simp only [hp, if_false]
+      by_cases h8 : d.length < 8
+      · simp [h8, R.isPanic]
+      · simp only [h8, if_false]
+        obtain ⟨pl, hu⟩ := u16At_some d 6 (by omega)
+        simp only [hu]
+        have := propLoop_total d (if pl + 8 > d.length then d.length - 8 else pl) (by split <;> omega) (d.length + 1) 0 []
+        cases hl : propLoop d (if pl + 8 > d.length then d.length - 8 else pl) (d.length + 1) 0 [] with
+        | ok ps => simp [R.isPanic]
+        | panic => simp [hl, R.isPanic] at this
+  refine ⟨?_, ?_, ?_, hprops, ?_⟩
+  · unfold getString
+    simp only [hh]
+    by_cases hu : t = Slock.Gen.C.LOCK_DATA_COMMAND_TYPE_UNSET
+    · simp [hu, R.isPanic]
+    · simp only [hu, if_false, ho]
+      obtain ⟨s, hs⟩ := sliceC_some d off d.length hle (Nat.le_refl _)
+      simp [hs, R.isPanic]
+  · unfold getArray
+    simp only [hh]
+    by_cases hu : t = Slock.Gen.C.LOCK_DATA_COMMAND_TYPE_UNSET ∨ fl &&& Slock.Gen.C.LOCK_DATA_FLAG_VALUE_TYPE_ARRAY = 0
+    · simp [hu, R.isPanic]
+    · simp only [hu, if_false, ho]
+      have := arrayLoop_total d d.length off []
+      cases hl : arrayLoop d d.length off [] with
+      | ok vs => simp [R.isPanic]
+      | panic => simp [hl, R.isPanic] at this
+  · unfold getKV
+    simp only [hh]
+    by_cases hu : t = Slock.Gen.C.LOCK_DATA_COMMAND_TYPE_UNSET ∨ fl &&& Slock.Gen.C.LOCK_DATA_FLAG_VALUE_TYPE_KV = 0
+    · simp [hu, R.isPanic]
+    · simp only [hu, if_false, ho]
+      have := kvLoop_total d d.length off []
+      cases hl : kvLoop d d.length off [] with
+      | ok vs => simp [R.isPanic]
+      | panic => simp [hl, R.isPanic] at this
+  · intro code
+    unfold getProp
+    cases hg : getProps d with
+    | panic => simp [hg, R.isPanic] at hprops
+    | ok o => cases o <;> simp [R.isPanic]
+
+/-- the hypothesis is satisfiable by frames with hostile inner lengths: an array cell of declared length 0xffffffff,
+a property entry of declared length 0xffff -/
+example : Slock.TextV.ingressOK [9, 0, 0, 0, 0, 2, 255, 255, 255, 255, 7] = true := by decide
+example : Slock.TextV.ingressOK [11, 0, 0, 0, 0, 16, 3, 0, 1, 255, 255, 65, 66] = true := by decide
 
 end Slock.C13T
